@@ -198,7 +198,7 @@ def run (parse : String → Q) (g : GS) (args : List String) (impl : List String
   let nums := rest.map parse
   let implQ := impl.map parse
   match op with
-  | "new" =>
+  | "new" | "newopt" =>
     let fac := rest.headD ""
     let a := (rest.drop 1).map parse
     let ic := readDump parse impl
@@ -210,7 +210,9 @@ def run (parse : String → Q) (g : GS) (args : List String) (impl : List String
         | some (some c) => dump c
         | some none => "err"
         | none => " ".intercalate impl
-      (g0, [(nm, body), ("created.lhs", "0"), ("created.rhs", "1")])
+      -- `newopt`: parameters for which the factory may refuse (no corner exists); otherwise the
+      -- generator only issues parameters of the documented domain, which must produce a curve
+      (g0, [(nm, body)] ++ (if op = "newopt" then [] else [("created.lhs", "0"), ("created.rhs", "1")]))
     | some ic =>
       let body := match (if fac = "raw" then none else modelled fac a) with
         | some (some c) => dump c
@@ -244,10 +246,7 @@ def run (parse : String → Q) (g : GS) (args : List String) (impl : List String
     match g.cur with
     | none => (g, [(nm, "bad-geo")])
     | some c =>
-      let old : Nat → Nat → Q := fun _ _ => -777
-      let body := match Curve.getCPAsCoded c.mX old, Curve.getCPAsCoded c.mY old with
-        | some mx, some my => s!"{c.nseg} 6 {showL mx.flatten} {c.nseg} 6 {showL my.flatten}"
-        | _, _ => "skipped-out-of-bounds"
+      let body := s!"{c.nseg} 6 {showL (Curve.getCP c.mX).flatten} {c.nseg} 6 {showL (Curve.getCP c.mY).flatten}"
       -- specification: the reported matrices hold all six control values of every section
       let n := c.nseg
       let rep := (implQ.drop 2).take (6 * n) ++ (implQ.drop (4 + 6 * n)).take (6 * n)
